@@ -126,7 +126,10 @@ pub fn dedent(s: &str) -> String {
 
         // Check if the line had anything but whitespace and if we
         // have found a shorter prefix
-        if whitespace_idx < line.len() && whitespace_idx < prefix.len() {
+        if line.chars().any(|c| !c.is_whitespace())
+            && whitespace_idx < line.len()
+            && whitespace_idx < prefix.len()
+        {
             prefix = &line[..whitespace_idx];
         }
     }
